@@ -1207,6 +1207,20 @@ pub fn c16_scenario(text: &str, rng: &mut Rng) -> Scenario {
     let mut a = style.clone();
     a.extend(["three.typ".to_string(), "one.typ".to_string(), "dir/two.typ".to_string()]);
     steps.push(Step { args: a, stdin: None, cwd: String::new() });
+    // stdout, a seed-chosen argument list with repetitions (the same file named twice is printed twice) and erroneous files
+    let names = ["three.typ", "one.typ", "dir/two.typ", "dir/a_broken.typ", "dir/zz_broken.typ"];
+    let mut a = style.clone();
+    let n = 2 + rng.below(5);
+    let mut list: Vec<String> = (0..n).map(|_| names[rng.below(names.len())].to_string()).collect();
+    if rng.chance(1, 2) {
+        // force at least one repetition, adjacent or not
+        let k = rng.below(list.len());
+        let dup = list[k].clone();
+        let at = rng.below(list.len() + 1);
+        list.insert(at, dup);
+    }
+    a.extend(list);
+    steps.push(Step { args: a, stdin: None, cwd: String::new() });
     // stdin
     steps.push(Step { args: style.clone(), stdin: Some(text.to_string()), cwd: String::new() });
     // in place
